@@ -40,6 +40,16 @@ CHECKS = {
          "Every payload length, GSO segment size x count x last-segment shape, ECN codepoint, explicit source address, receive-buffer shape and GRO on/off, on four socket-pair families, is sent through quinn-udp and fully received before the next; the oracle is the Transmit itself (segments byte-identical, in order, stride splits batches, ecn/addr/dst_ip conveyed). Offload-failure fallback is triggered from user space and the following plain transmits are checked.",
          "Kernel behaviour is not owned: a silent receive is retried and then recorded as inconclusive, only a received-but-wrong result is a violation; memory safety of the unsafe cmsg code as such is outside this family.",
          "DESIGN.md#c19"),
+ "C10": ("E3", "exploration",
+         "complete enumeration of finite codec domains against independent reference codecs",
+         "Every value of the 1/2-byte (quick) and 4-byte (thorough) varint ranges and windows around each power of two above; packet numbers in windows of up to 2^17 around every encoding-size boundary x receiver expectations (RFC 9000 A.3 reference); every header form x CID lengths 0..=20 x token lengths x packet-number sizes x versions incl. coalesced pairs/triples; every frame type over the product of boundary values per field (real encoder, independent decoder, real decoder); transport parameters one-at-a-time and full product; connection IDs, tokens, hashed CID generator; totality: all byte strings up to 2/3 bytes and every single-byte mutation and truncation of the valid corpus into every decoder must return Ok/Err, never panic.",
+         "8-byte varint range covered only around powers of two; encoder-budget and decoder-strictness observations outside the property are recorded as informational, not judged.",
+         "DESIGN.md#c10"),
+ "C18": ("E4", "exploration",
+         "deviation-bounded exhaustive task-schedule, cancellation-point and handle-drop enumeration of the real quinn async API under a deterministic executor",
+         "The real quinn crate (Endpoint, Connecting, Connection, streams, datagrams, EndpointDriver, ConnectionDriver) runs over a harness Runtime (virtual clock, timer table), an in-memory AsyncUdpSocket pair and model TLS on a single-threaded executor whose choice at every step (which ready task, or starve tasks and deliver a datagram / fire a timer) is enumerated with <=k deviations; every cancel-safe await site is cancelled after every n polls and retried; every handle is dropped at every point; send back-pressure injected at every poll_send. Oracles: at quiescence every application task is done (no lost wakeup), data integrity, drivers terminate and bookkeeping is released, no panic, no stale waker registration, documented drop semantics.",
+         "Interleaving is at poll granularity on one thread (races inside one poll are out of reach); FIFO loss-free network; tokio primitives used as-is.",
+         "DESIGN.md#c18"),
  "C12": ("E2+E3+E1", "fault_enumeration",
          "deviation-bounded stateless exploration of real endpoints with a harness-dictated congestion window and a wire-level gate oracle; explicit-state search of the built-in controllers",
          "With a harness congestion controller dictating the window (2, 3, 10 datagrams, huge) and with Cubic / NewReno / BBR, incl. ECN-CE marks, Retry, rebinding, migration and key update, every execution with <=k fate deviations is run; each emitted datagram is classified by the independent decoder and an ack-eliciting datagram must not leave when bytes in flight (probe value read before the poll_transmit call plus earlier datagrams of the batch) plus its size reach the window, except owed loss probes, one MTU probe, path-validation packets and CONNECTION_CLOSE. After completion on a quiet network bytes in flight must be 0; fault-free runs over latency x controller x ack-frequency x workload must declare no packet lost. Controller minimum-window search (E1) is merged from /verif/comp.",
@@ -88,22 +98,24 @@ def main():
             na.append({"property_id": pid, "reason": REASONS_NA.get(pid, "check not built yet in this round (bounded exhaustive exploration is applicable; see DESIGN.md); not claimed until its check exists and passes on the unchanged tree")})
     m = {
         "version": 1,
-        "setup_cmd": "for d in harness harness-udp; do (cd /verif/$d && CARGO_NET_OFFLINE=true cargo build --offline --bins) || exit 1; done",
+        "setup_cmd": "for d in comp codec harness harness-udp harness-async; do (cd /verif/$d && CARGO_NET_OFFLINE=true cargo build --offline --bins) || exit 1; done",
         "hooks": {
             "guard": "cargo feature __verif of quinn-proto",
             "enable": "the harness crate depends on /repo/quinn-proto by path with features=[\"__verif\"]; no RUSTFLAGS needed",
             "baseline_off_cmd": "cd /repo && cargo nextest run --workspace --no-fail-fast --tool-config-file pb:/w/lib/nextest.toml --profile pb --test-threads 8 --offline",
             "source_commits": subprocess.run(["git","-C","/repo","log","--format=%h %s","--grep=^verif hook"],capture_output=True,text=True).stdout.strip().splitlines(),
-            "add_only": True,
+            "add_only": False,
         },
         "engines": [
-            {"name": "E1", "path": "harness/src/explore.rs", "serves_properties": [], "kind_free_text": "explicit-state BFS by replay over real components with reference models"},
+            {"name": "E1", "path": "comp/src/engine.rs", "serves_properties": ["C01","C12","C13","C14"], "kind_free_text": "explicit-state BFS by replay over real components with reference models"},
             {"name": "E2", "path": "harness/src/explore.rs", "serves_properties": [c["property_id"] for c in checks if "E2" in c["engine"]], "kind_free_text": "deviation-bounded stateless exploration of whole connections (real quinn_proto endpoints on a virtual network)"},
+            {"name": "E4", "path": "harness-async/src/exec.rs", "serves_properties": ["C18"], "kind_free_text": "deterministic single-threaded executor + quinn::Runtime + in-memory AsyncUdpSocket; enumerates ready-task choices, cancellation and drop points"},
+            {"name": "E5", "path": "harness-udp/src/main.rs", "serves_properties": ["C19"], "kind_free_text": "bounded exhaustive enumeration of transmit shapes over real loopback sockets"},
             {"name": "E3", "path": "harness/src/explore.rs", "serves_properties": [c["property_id"] for c in checks if "E3" in c["engine"]], "kind_free_text": "exhaustive vector enumeration (drop masks, mutations, operation sequences, codec domains)"},
         ],
         "checks": checks,
         "not_applicable": na,
-        "notes": "All checks: exit 0 held, 1 VIOLATION, 2 machinery failure. known_findings.json lists genuine defects (open ones print KNOWN-FINDING).",
+        "notes": "Hook commits add code behind the __verif feature; the only rewritten lines widen #[cfg(test)] to #[cfg(any(test, feature = \"__verif\"))] on a few range-set test helpers (hence add_only=false). All checks: exit 0 held, 1 VIOLATION, 2 machinery failure. known_findings.json lists genuine defects (open ones print KNOWN-FINDING).",
     }
     json.dump(m, open(f"{V}/MANIFEST.json", "w"), indent=1)
     try:
